@@ -82,11 +82,14 @@ class SpecEval:
         self.results = results
         self.head = None        # (heap, env) at the head of the current loop iteration (step clauses)
         self.bound = {}         # quantifier / let bound names (visible inside old(), lold(), atHead())
+        self.latch = None       # (heap, env) at the back edge, loop-carried variables having their next-iteration values
 
     def sub(self, **kw):
         e = SpecEval(self.V, self.pkg, self.env, self.heap, self.old, self.loop_old, self.results)
         e.head = self.head
         e.bound = self.bound
+        e.latch = self.latch
+        e.in_callee = getattr(self, 'in_callee', False)
         for k, v in kw.items():
             setattr(e, k, v)
         return e
@@ -294,11 +297,35 @@ class SpecEval:
         if name == 'old':
             if self.old is None:
                 raise SpecError('old() not available here')
+            # inside old(), a parameter name denotes the argument value at entry (a parameter that go/ssa
+            # spilled to a local cell would otherwise be read from a cell that does not exist in the entry state)
+            pe = getattr(self.V, 'param_env', None)
+            if pe and self.pkg == getattr(self.V, 'param_pkg', None) and not getattr(self, 'in_callee', False):
+                env = dict(self.env)
+                for k_, v_ in pe.items():
+                    if k_ not in self.bound:
+                        env[k_] = v_
+                return self.sub(heap=self.old, env=env).ev(args[0])
             return self.sub(heap=self.old).ev(args[0])
         if name == 'lold':
             if self.loop_old is None:
                 raise SpecError('lold() outside loop')
             h, env = self.loop_old
+            env = dict(env)
+            env.update(self.bound)
+            return self.sub(heap=h, env=env).ev(args[0])
+        if name == 'visited':
+            # visited(n, k): key k has already been delivered by the n-th map range statement of the function
+            n = args[0][1]
+            rk = getattr(self.V, 'range_keys', {}).get(n)
+            if rk is None:
+                raise SpecError('visited(%s, ..): no such map range executed before this point' % n)
+            kx = self.ev(args[1])
+            return SV(self.heap.get(rk)[kx.t], 'bool')
+        if name == 'next':
+            if self.latch is None:
+                raise SpecError('next() outside a step clause')
+            h, env = self.latch
             env = dict(env)
             env.update(self.bound)
             return self.sub(heap=h, env=env).ev(args[0])
